@@ -434,7 +434,10 @@ fn all_lines(sc: &Scenario) -> Vec<Vec<u8>> {
         .values()
         .chain(sc.info_exclude.iter())
         .chain(sc.excludes_file.iter())
-        .flat_map(|c| c.split(|b| *b == b'\n').map(|l| l.to_vec()).collect::<Vec<_>>())
+        .flat_map(|c| {
+            let c = c.strip_prefix(b"\xef\xbb\xbf").unwrap_or(c);
+            c.split(|b| *b == b'\n').map(|l| l.to_vec()).collect::<Vec<_>>()
+        })
         .collect()
 }
 
@@ -507,7 +510,7 @@ fn main() {
 
     let replay: Option<Vec<String>> = replay_ops(&args);
     let fixed = corpus();
-    let n = if replay.is_some() { 0 } else { args.budget(45, 1200) as usize + fixed.len() };
+    let n = if replay.is_some() { 0 } else { args.budget(30, 600) as usize + fixed.len() };
     let mut scenarios: Vec<Scenario> = Vec::new();
     if let Some(ops) = &replay {
         // a replay line is an `ign`/`gitign` op: rebuild the scenario and ask about its path
